@@ -68,6 +68,32 @@ CLAIMED = {
             "integrator tolerance, IMF-N0 irrelevance and from_powerlaw equivalence bit-for-bit.",
             "Solutions scale only for exact solutions; dopri5 at default tolerance is not scale-free on remnant bins (pairs run at 1e-10).",
             "DESIGN §6 C18"),
+    "C04": ("Lean 4 proof (row extraction defined and non-negative on non-negative states above Pk's resolution; summary views: equal "
+            "lengths, m=M/N, exactly the populated bins in class order; ejection keeps non-negativity; lookup soundness) + extraction/view "
+            "correspondence on real output rows + random-configuration sweep over the documented domain",
+            "Theorem C04_partial; whether the hypotheses hold at dopri5 output is what the sweep (150 / 5000 configurations incl. dict "
+            "layouts, escape, kicks, BH targets) looks for; the non-convergence flag is honoured.",
+            "dopri5 numerical facts not proved; known finding C04-solver-undershoot.",
+            "DESIGN §6 C04"),
+    "C05": ("Lean 4 proof (star mean mass strictly inside the truncated bin from the moment integrals; cone invariant lo·N ≤ M ≤ hi·N under "
+            "deposits and common-factor rescalings by induction over any update sequence; NS bins exact; empty bins report the centre; "
+            "escape and ejection move a bin along its own ray) + sweep of ms/mr against bin edges on every row",
+            "Theorem C05_partial (discrete invariant); continuous forward invariance not formalised — rows of real constructions checked.",
+            "dopri5 output trusted only through the sweep.",
+            "DESIGN §6 C05"),
+    "C06": ("Lean 4 proof of the extraction loop with an abstract exact flow (loop invariant over any sorted grid: every requested age — "
+            "any order, repeats, zero, equal to turn-off times — gets its own single-age row with its own target; grid sorted and "
+            "containing all ages and turn-off times) + exact grid correspondence + schedule-differential on real constructions",
+            "Theorem C06_partial / schedule_independent / age_zero_row. Real flow has the semigroup property only to integrator accuracy: "
+            "multi-age rows vs single-age runs at rtol=atol=1e-10 and at the default tolerance.",
+            "dopri5 restarts its step control at every integrate call (not modelled).",
+            "DESIGN §6 C06"),
+    "C17": ("Lean 4 proof of the validation decision logic (whatever passes satisfies every documented requirement; each invalid family ⇒ "
+            "ValueError), sticky convergence flag over any fault sequence, flag ⇒ rows at requested ages + malformed-argument "
+            "correspondence through the real constructors + genuine solver faults injected at every segment position",
+            "Theorem C17_partial; error kinds compared on 12 families × random valid remainders; scipy failures forced via nsteps.",
+            "scipy's success flag semantics observed, not proved.",
+            "DESIGN §6 C17"),
 }
 
 NOT_YET = "check not built yet in this session (planned: see DESIGN §6); not claimed until its quick check is silent on the clean tree"
